@@ -277,7 +277,7 @@ func manifest() {
 			Technique: "static analysis: " + p.Technique,
 		})
 	}
-	var nas []na
+	nas := []na{}
 	for _, e := range props.NotApplicable {
 		nas = append(nas, na{e[0], e[1]})
 	}
